@@ -64,6 +64,9 @@ def run(ctx):
         "usize arithmetic of the modelled functions does not overflow for inputs a Vec can hold ((remmax+1)*blowup is unbounded in the model)",
         "rustc/LLVM compile the crate as written; ToyHasher (64-bit, not collision resistant) stands for 'all hashers': the code is generic in H",
     ]
+    # the pure integer parts of fri/src are re-translated on every run (coq/Gen/FriInt.v); Proofs/FriGen.v proves that
+    # the hand model computes those terms, so a change of that arithmetic in the source breaks the Coq build
+    ctx.rs2v(["FriInt"])
     ctx.audit_sources()
     ctx.coq_build("C15")
     if not quick:
